@@ -235,6 +235,11 @@ class C05(Oracle):
             base = ctx.post_all[slot]
             if base is not None and len(base.text) <= 24:
                 self.split_rejoin(tgt, base, ctx)
+            if base is not None and len(base.text) <= 64:
+                # a plain str appended to ANY reachable value keeps no settings, a styled one exactly its own
+                # (also on an exact clone appended to in place: state the library's copy() may drop)
+                _probe_closure(tgt, 'append_probe')
+                ctx.world.count('append_probes')
 
     def split_rejoin(self, v, base, ctx):
         n = len(base.text)
